@@ -1,33 +1,11 @@
 import Rcgen.Model.Types
+import Rcgen.Base.Date
 /-
   lib.rs:537-570 (`dt_strip_nanos`, `dt_to_generalized`, `write_dt_utc_or_generalized`)
   composed with yasna 0.5.2 `UTCTime/GeneralizedTime::from_datetime` (conversion to UTC inside
   the constructor, year assertions) and `to_bytes`, and time 0.3.41 `to_offset`.
 -/
 namespace Rcgen.Model
-
-/-- days since 1970-01-01 of a proleptic Gregorian civil date (month 1..12) -/
-def daysFromCivil (y : Int) (m d : Nat) : Int :=
-  let y' : Int := if m ≤ 2 then y - 1 else y
-  let era : Int := y' / 400
-  let yoe : Int := y' - era * 400
-  let mp : Int := if m > 2 then (m : Int) - 3 else (m : Int) + 9
-  let doy : Int := (153 * mp + 2) / 5 + (d : Int) - 1
-  let doe : Int := yoe * 365 + yoe / 4 - yoe / 100 + doy
-  era * 146097 + doe - 719468
-
-/-- inverse of `daysFromCivil` -/
-def civilFromDays (z0 : Int) : Int × Nat × Nat :=
-  let z : Int := z0 + 719468
-  let era : Int := z / 146097
-  let doe : Int := z - era * 146097
-  let yoe : Int := (doe - doe / 1460 + doe / 36524 - doe / 146096) / 365
-  let y : Int := yoe + era * 400
-  let doy : Int := doe - (365 * yoe + yoe / 4 - yoe / 100)
-  let mp : Int := (5 * doy + 2) / 153
-  let d : Int := doy - (153 * mp + 2) / 5 + 1
-  let m : Int := if mp < 10 then mp + 3 else mp - 9
-  (if m ≤ 2 then y + 1 else y, m.toNat, d.toNat)
 
 /-- seconds since the epoch of the instant `dt` denotes (whole seconds; nanoseconds dropped) -/
 def DateTime.epochSeconds (dt : DateTime) : Int :=
